@@ -1,6 +1,7 @@
 import QR.Model.Cli
 import QR.Proofs.Segmentation
 import QR.Proofs.Pinned
+import QR.Proofs.SourceTieT6
 /-
 C17 - the `qr` command: decision logic (payload, options, sink independence, rejection).
 The image/ASCII output then decodes to the payload by C01 + C12/C13/C15 (renderers) - composed by the oracle sweep.
@@ -110,6 +111,70 @@ theorem C17_sink_independent (i : CliInput) (path : String) (f d l segs)
     simp only [cli, hl', hf', hd', hcond]
     simp
     rfl
+
+
+/-! ### Source tie, part 2 (T2 plugins `tools/t2_fragments/`): (second plugin round, `frag_c.py`) the hand-written Model equals the definitions translated from
+    /repo's current Python AST (`QR.Gen.Code`, regenerated on every run). Restated verbatim from `QR/Proofs/SourceTie*.lean`. -/
+section SourceTieT2b
+open QR.Model QR.Gen QR.Gen.Code QR.SourceTieT
+
+/-- `default_factories`, read from the AST, is the table the Model uses (gen_tables imports the module at run time) -/
+theorem C17_source_cli_default_factories_src : Gen.CLI_FACTORIES = cli_default_factories :=
+  QR.SourceTieT.cli_default_factories_src
+
+/-- the `error_correction` dict of the source (key order of the source) and the Model's table (sorted) agree on every key -/
+theorem C17_source_cli_error_correction_src (s : String) : Gen.CLI_LEVELS.lookup s = cli_error_correction.lookup s :=
+  QR.SourceTieT.cli_error_correction_src s
+
+/-- optparse accepts the level letter iff the Model's table has it -/
+theorem C17_source_cli_choices_src (s : String) : cli_choices_error_correction.contains s = (Gen.CLI_LEVELS.lookup s).isSome :=
+  QR.SourceTieT.cli_choices_src s
+
+/-- the option table: option strings, `dest`, action, type and default of every `parser.add_option` call, in order; these are
+    the fields of `Model.CliInput` (factory, drawer, optimize, level, ascii, output) with their types and defaults -/
+theorem C17_source_cli_options_src :
+    cli_options.map (fun o => (o.names, o.dest, o.action, o.type, o.default)) =
+      [(["--factory"], "factory", "store", "string", "None"),
+       (["--factory-drawer"], "factory_drawer", "store", "string", "None"),
+       (["--optimize"], "optimize", "store", "int", "None"),
+       (["--error-correction"], "error_correction", "store", "choice", "'M'"),
+       (["--ascii"], "ascii", "store_true", "", "None"),
+       (["--output"], "output", "store", "string", "None")] ∧
+    (cli_default_factory, cli_default_factory_drawer, cli_default_optimize, cli_default_error_correction, cli_default_ascii,
+      cli_default_output) = (none, none, none, "M", false, none) ∧
+    cli_add_data_optimize_default = 20 ∧ cli_print_ascii_tty_default = false :=
+  QR.SourceTieT.cli_options_src
+
+/-- **console_scripts.main** as it stands in the source = `Model.cli`, for every input, every list of positional arguments and
+    every `str.encode`.  Hypotheses: the Model's `arg` is the encoded first argument; the three string options are not the
+    empty string (Python treats `--factory ""`, `--factory-drawer ""`, `--output ""` as absent, the Model does not: see
+    `cli_empty_option_disagreement`). -/
+theorem C17_source_cli_src {PyStr : Type} (i : CliInput) (args : List PyStr) (str_encode : PyStr → String → String → List Nat)
+    (harg : i.arg = args.head?.map fun a => str_encode a "utf-8" "surrogateescape")
+    (hf : i.factory ≠ some "") (hd : i.drawer ≠ some "") (ho : i.output ≠ some "") :
+    cliInterp (cli_main i.factory i.drawer (i.optimize.map Int.ofNat) i.level i.ascii i.output args
+        (cliImport i) str_encode i.stdin (cliAliases i) id i.stdoutIsTty)
+      = some (cliNormalize (Model.cli i)) :=
+  QR.SourceTieT.cli_src i args str_encode harg hf hd ho
+
+/-- source: `--factory ""`, `--factory-drawer ""`, `--output ""` behave exactly as if the option were absent (`if opts.x:`) -/
+theorem C17_source_cli_main_empty_option_src {PyStr Fac D Drawer : Type} (fac drw out : Option String) (opt : Option Int) (lvl : String)
+    (asc : Bool) (args : List PyStr) (imp : String → Option Fac) (enc : PyStr → String → String → List Nat) (stdin : List Nat)
+    (al : Fac → Option (List (String × D))) (mk : D → Drawer) (tty : Bool) :
+    cli_main (some "") drw opt lvl asc out args imp enc stdin al mk tty = cli_main none drw opt lvl asc out args imp enc stdin al mk tty ∧
+    cli_main fac (some "") opt lvl asc out args imp enc stdin al mk tty = cli_main fac none opt lvl asc out args imp enc stdin al mk tty ∧
+    cli_main fac drw opt lvl asc (some "") args imp enc stdin al mk tty = cli_main fac drw opt lvl asc none args imp enc stdin al mk tty :=
+  QR.SourceTieT.cli_main_empty_option_src fac drw out opt lvl asc args imp enc stdin al mk tty
+
+/-- Model: `--factory ""` and `--factory-drawer ""` are failures, `--output ""` writes to the file "" -/
+theorem C17_source_cli_empty_option_model (i : CliInput) (l : Nat) (hl : Gen.CLI_LEVELS.lookup i.level = some l) :
+    (i.factory = some "" → Model.cli i = .fail) ∧
+    (i.drawer = some "" → i.factory = none → Model.cli i = .fail) ∧
+    (i.output = some "" → i.factory = none → i.drawer = none →
+      Model.cli i = .image none none l (segsOf i) (.file "")) :=
+  QR.SourceTieT.cli_empty_option_model i l hl
+
+end SourceTieT2b
 
 /-- the Python functions this property's model mirrors have, in /repo's current working tree, exactly the normalised
     ASTs the model was written and validated against (fingerprints regenerated by T1 on every run) -/
